@@ -55,6 +55,14 @@ RULE = ("model: the assign / stop / repair-empty / update / final-assign state m
         "C01/C02) are judged by TLC with the same postcondition predicate; non-trivial = k > 1")
 
 
+def _canary(rec):
+    for f in rec["fits"]:
+        if not f["raised"] and f["result"] and f["result"][0][1]:
+            f["result"][0][1].pop()          # one series is no longer in any cluster
+            return rec
+    return None
+
+
 def judge(ctx, src, its):
     ctx.log("running %d k-means data sets" % len(its))
     outs = core.pool_map(src, "harness.kmx", "run_c16", its, chunksize=4)
@@ -71,7 +79,7 @@ def judge(ctx, src, its):
         records.append(rec)
         ctx.evaluations += len(rec["routes"])
     ctx.log("Act T: TLC judges %d records (%d fits)" % (len(records), ctx.evaluations))
-    res = tlc.validate_traces("KMTrace", "KMTrace.cfg", records, chunk=100, parallel=8)
+    res = tlc.validate_traces("KMTrace", "KMTrace.cfg", records, chunk=100, parallel=8, canary_fields=[_canary])
     ctx.add_tv(res)
     classify(ctx, by_id, res["fails"])
     ctx.nontrivial = {it["id"] for it in its if any(f["k"] > 1 for f in it["fits"])}
